@@ -658,6 +658,25 @@ def _bip_algos():
         r, c = get_distances(b, source_row=x['src_row'], source_col=x['src_col'])
         return {'dist_row': r, 'dist_col': c}
     A['bip:get_distances'] = (dist, 0)
+
+    def dist_t(b, x):
+        # the transposed bigraph: its rows are the columns of B (sources given accordingly), answers read back per side of B
+        r, c = get_distances(b, source_row=x['src_col'] or None, source_col=x['src_row'], transpose=True)
+        return {'distT_col': r, 'distT_row': c}
+    A['bip:get_distances(transpose)'] = (dist_t, 0)
+
+    def dist_src(b, x):
+        r, c = get_distances(b, source=x['src_row'], force_bipartite=True)
+        return {'dist_row': r, 'dist_col': c}
+    A['bip:get_distances(source alias)'] = (dist_src, 0)
+    from sknetwork.path import get_shortest_path
+
+    def sp(b, x):
+        p = get_shortest_path(b, source_row=x['src_row'], source_col=x['src_col'] or None).toarray()
+        nr = b.shape[0]
+        return {'inv': int(p.sum()), 'rc_row': p[:nr, nr:].sum(axis=1), 'rc_col': p[:nr, nr:].sum(axis=0),
+                'cr_row': p[nr:, :nr].sum(axis=0), 'cr_col': p[nr:, :nr].sum(axis=1)}
+    A['bip:get_shortest_path'] = (sp, 0)
     A['bip:modularity'] = (lambda b, x: {'inv': get_modularity(b, x['part_row'], x['part_col'])}, 1e-12)
     A['bip:singular_values'] = (lambda b, x: {'inv': np.sort(SVD(n_components=min(2, min(b.shape) - 1)).fit(b).singular_values_)}, 1e-7)
     return A
@@ -745,8 +764,13 @@ def bipartite_relation_cases(ctx, count, sub=None, fixed=None):
                     continue
                 bad = None
                 for k, v in y.items():
-                    want = _perm_rows(v, pr) if k.endswith('_row') else (_perm_rows(v, pc) if k.endswith('_col') else np.asarray(v))
+                    side = pr if k.endswith('_row') else (pc if k.endswith('_col') else None)
                     got = np.asarray(out[k])
+                    if side is not None and (np.asarray(v).shape[:1] != (len(side),) or got.shape[:1] != (len(side),)):
+                        # an output that does not have one entry per node of its side cannot be renumbered at all
+                        bad = (k + ' (wrong length for its side)', np.asarray(v, dtype=float).tolist(), got.astype(float).tolist())
+                        break
+                    want = _perm_rows(v, side) if side is not None else np.asarray(v)
                     if got.shape != np.asarray(want).shape or not np.allclose(got, want, atol=tol, rtol=tol, equal_nan=True):
                         bad = (k, np.asarray(want, dtype=float).tolist(), got.astype(float).tolist())
                         break
